@@ -24,7 +24,8 @@ RULE = ("exhaustive enumeration of (ballot, assertion) pairs for each candidate 
         "the assertion's two candidates; distinct = (n, ballot, assertion) / hash of file / hash of profile")
 REQUIRED = ["assort_pairs_compared", "assort_pairs_nontrivial", "exhaustive_tables", "reader_entries_compared",
             "reader_files", "reapplied_NEB", "reapplied_NEN", "ballots_lacking_contest_compared", "ballots_on_a_reused_record", "reader_files_with_non_ascii_names",
-            "contest_identifier_is_not_a_string", "ballot_mappings_not_stored_in_preference_order"]
+            "contest_identifier_is_not_a_string", "ballot_mappings_not_stored_in_preference_order",
+            "ballots_listing_unranked_candidates_with_rank_0"]
 ASSUMPTIONS = ["rankings are duplicate-free (the property's quantifier)", "candidate ids are strings in both readers",
                "JSON mapping per the RAIRE documentation: WINNER_ONLY <-> NEB, IRV_ELIMINATION + already_eliminated <-> NEN"]
 EXHAUSTIVE = "c14.assort enumerates every partial ranking x ordered pair x eliminated set for each n listed in the counters"
@@ -112,7 +113,14 @@ def run_exhaustive(case, rec):
             # order, reversed - the ranks are what counts
             order_mode = len(b) % 3
             keys = list(b) if order_mode == 0 else [c for c in cands if c in ranks] if order_mode == 1 else list(reversed(b))
-            audit_cvr = CVR(id="x", votes={cname: {c: ranks[c] for c in keys}})
+            avotes = {c: ranks[c] for c in keys}
+            if bi % 5 >= 3:
+                # candidates the voter did not rank may be listed with rank 0 (the CVR convention for "unranked", and what
+                # the Dominion reader stores): same ballot
+                for c in (cands if bi % 5 == 3 else reversed(cands)):
+                    avotes.setdefault(c, 0)
+                rec.count("ballots_listing_unranked_candidates_with_rank_0")
+            audit_cvr = CVR(id="x", votes={cname: avotes})
             if bi % 3 == 1:
                 live.votes = audit_cvr.votes
                 audit_cvr = live
